@@ -588,6 +588,13 @@ def simple_contagion_rule(repo, rep):
         if op == "insert":
             okg = False
             det = "insert() replaces the weight; the bookkeeping relies on increment semantics"
+        # the operation may depend on nothing but its own guard (an `elif` silently adds the negation of its siblings)
+        enc = [(_key(fx), pol) for fx, pol in c.enclosing_conditions()]
+        extra = [("%s" if pol else "not(%s)") % t for t, pol in enc
+                 if not (pol and ("transition[0]==" in t or "==transition[0]" in t)) and t not in ("G.is_directed()", "total_rate>0", "t<tmax")]
+        if extra and okg:
+            okg = False
+            det = "%s of %s is additionally conditional on %s: when two spec-edge tests hold at once only one is carried out" % (op, _key(K), extra)
         rep.ob("R11s", okg and okpos, "simple contagion %s: %s %s only for the spec edge whose source status is that of the actor"
                % (sect, op, shape), func=f, node=st,
                construct="%s %s %s under transition[0]==%s over %s" % (sect, op, _key(K), guard, dom),
@@ -755,6 +762,28 @@ def simple_contagion_rule(repo, rep):
                 "spontaneous" if spont else "induced", "node" if spont else "ordered pair"), func=f, node=st,
                 construct="get_weight[transition] = %s" % short(v, 70), detail="" if ok else "weight table key/label changed")
     rep.floor("R11s", "weight table definitions", wl, 4)
+    # reversed orientation added for undirected graphs: key (a, b) <-> value computed for (a, b)
+    nrev = 0
+    for c in walk_function(f.node):
+        st = c.stmt
+        if isinstance(st, ast.Expr) and isinstance(st.value, ast.Call) and _key(st.value.func) == "get_weight[transition].update" \
+                and st.value.args and isinstance(st.value.args[0], ast.DictComp):
+            nrev += 1
+            dc = st.value.args[0]
+            key = dc.key
+            ok = isinstance(key, ast.Tuple) and len(key.elts) == 2
+            if ok:
+                a, b = _key(key.elts[0]), _key(key.elts[1])
+                v = _key(dc.value)
+                ok = v.startswith("rf(G,%s,%s," % (a, b)) or v in ("G.adj[%s][%s][wl]" % (a, b), "G.adj[%s][%s][wl]" % (b, a),
+                                                                  "G.edges[%s,%s][wl]" % (a, b))
+                und = any((not pol) and _key(fx) == "nx.is_directed(G)" for fx, pol in c.facts) or \
+                    any((not pol) and _key(fx) == "G.is_directed()" for fx, pol in c.facts)
+                ok = ok and und
+            rep.ob("R11s", ok, "simple contagion: the reversed orientation of an undirected edge gets the weight computed for that "
+                   "ordered pair", func=f, node=st, construct="reverse table {%s: %s}" % (_key(dc.key), _key(dc.value)),
+                   detail="" if ok else "reverse-orientation weight is computed for another pair than the key it is stored under")
+    rep.floor("R11s", "reverse-orientation weight tables", nrev, 2)
 
 
 # ---------------------------------------------------------------------------
